@@ -100,6 +100,57 @@ def run(tier, replay=None):
         })
     for d in rep["drift"][:5]:
         print("NOTE model-drift property=C12 %s" % d["detail"])
+    # 3. cluster mode: --maxjobs with a real RemoteJobManager, the driver plays the
+    #    cluster; plain runs and runs in which mrp exits and is restarted while jobs
+    #    are queued or running on the cluster (MaxJobs.tla's Exit / Restart)
+    mj = vlib.run_tlc("MaxJobs", "MaxJobs.cfg", workers=4, timeout=600)
+    if not mj.ok:
+        raise vlib.Infra("MaxJobs violates %s (specification problem)" % mj.violation)
+    old = vlib.run_tlc("MaxJobs", "MaxJobsOld.cfg", workers=1, timeout=600)
+    states += mj.distinct
+    trans += mj.generated
+    tlc_cmds.append("MaxJobs.cfg: %d states, WithinLimit / SemCovers hold; with re-attach not counting running jobs TLC finds %s" % (
+        mj.distinct, " ; ".join(x["_action"].split(" line")[0].lstrip("<") for x in old.error_trace[1:])))
+    import random
+    import psprops
+    import psrun
+    import shapes
+    rng = random.Random(vlib.seed())
+    progs = [q for q in shapes.catalogue() if q["name"] in ("split10", "map_dyn2", "diamond", "split2", "chain", "map_keys")]
+    sem, _ = psrun.semantics(progs)
+    cspecs = []
+    nper = 6 if not thorough else 40
+    for q in progs:
+        jobs = [j["key"] for j in psprops.expected_jobs(sem[q["name"]])]
+        for n in range(nper):
+            cspecs.append(psrun.make_spec(q, sem[q["name"]], {"kind": "random", "seed": rng.randrange(1 << 30), "penv": rng.choice([0.3, 0.6, 0.9])},
+                                          name="%s#c%d" % (q["name"], n), maxjobs=rng.choice([1, 2, 3])))
+            cspecs.append(psrun.make_spec(q, sem[q["name"]], {"kind": "random", "seed": rng.randrange(1 << 30), "penv": rng.choice([0.3, 0.6, 0.9])},
+                                          name="%s#r%d" % (q["name"], n), maxjobs=rng.choice([1, 2, 3]),
+                                          faults={rng.choice(jobs): "errors"}, restart=True))
+    cres = psrun.run_specs(cspecs, nproc=16)
+    recs = []
+    for sp, r_ in zip(cspecs, cres):
+        recs += psprops.monitor_records(sp, sem[sp["name"].split("#")[0]], r_)
+    cbad, ctlc = psprops.run_monitor(recs)
+    cby = {sp["name"]: (sp, r_) for sp, r_ in zip(cspecs, cres)}
+    for b in cbad:
+        if b["prop"] != "C12":
+            continue
+        sp, r_ = cby[b["run"]]
+        viols.append({"key": "maxjobs:%s:%s" % (sp["name"].split("#")[0], "restart" if sp.get("restart") else "run"),
+                      "what": "cluster mode, --maxjobs=%d%s: %s (program %s)" % (
+                          sp["maxjobs"], ", after mrp was restarted" if sp.get("restart") else "", b["what"], sp["name"]),
+                      "replay": {"spec.json": json.dumps(dict(sp, sched={"kind": "script", "script": r_["script"]})),
+                                 "trace.ndjson": "\n".join(json.dumps(e) for e in r_["trace"]) + "\n"}})
+    stuck = [sp["name"] for sp, r_ in zip(cspecs, cres) if r_["states"][-1] != "complete"]
+    for name in stuck[:3]:
+        sp, r_ = cby[name]
+        viols.append({"key": "maxjobs:%s:stalled" % name.split("#")[0],
+                      "what": "cluster mode, --maxjobs=%d: the pipestance did not complete (%s) (program %s)" % (sp["maxjobs"], r_["states"], name),
+                      "replay": {"spec.json": json.dumps(sp)}})
+    nsub = sum(1 for r_ in cres for e in r_["trace"] if e["ev"] == "ClusterSubmit")
+    peak = max([e["inflight"] for r_ in cres for e in r_["trace"] if e["ev"] == "ClusterSubmit"] or [0])
     rc, nunk, hit = vlib.conclude("C12", viols)
     nontrivial = sum(1 for b in behs if any(s["a"] == "AcquireEnqueue" for s in b["steps"]))
     vlib.write_evidence("C12", tier, "model_checking", {
@@ -113,8 +164,11 @@ def run(tier, replay=None):
         "per_action": cov,
         "model_drift": len(rep["drift"]),
         "tlc_runs": tlc_cmds,
+        "cluster_runs": len(cspecs), "cluster_runs_with_restart": sum(1 for x in cspecs if x.get("restart")),
+        "cluster_submissions_observed": nsub, "peak_jobs_on_cluster": peak,
         "known_findings_hit": hit,
     }, [
+        "cluster mode: a real RemoteJobManager (template file, submit command that prints a job id, --maxjobs 1..3); the driver plays the cluster: a job is on the cluster from the SendJob hook until its process ends; after a failure mrp exits, the cluster jobs live on, a fresh runtime re-attaches (Reset, RestartLocalJobs with the cluster job mode, as cmd/mrp does); PsTrace (TLC) judges every submission",
         "ResSem.tla transcribes resource_semaphore.go one action per critical section; MaxSize 4, 3 clients, amounts {0,1,2,3,5}, updates from {-1,0,2,4,6}",
         "replay drives the exported ResourceSemaphore API, one goroutine per blocked Acquire; verdicts only from the real object's Reserved/CurrentSize/QueueLength and which Acquire calls returned",
         "UpdateSize is only explored with values <= maxSize (the only caller passes rlimit cur <= max)",
